@@ -288,6 +288,11 @@ class Machine:
             return ('inconclusive', '%s: %s' % (type(u).__name__, u))
         except RecursionError:
             return ('inconclusive', 'python recursion limit')
+        except (BreakEx, ContinueEx, ReturnEx):
+            return ('inconclusive', 'control-flow signal escaped')
+        except Exception as ex:                       # a bug of the executor or of a harness must never look like a verdict
+            import traceback
+            return ('inconclusive', 'internal error: %r %s' % (ex, traceback.format_exc()[-400:]))
     def explore(self, driver, prefix=None, max_paths=None):
         """DFS over all paths below prefix. yields (trace, pc, status, value)."""
         self.work = [list(prefix or [])]
